@@ -544,7 +544,14 @@ func (runInfo *runInfoStruct) runForSliceStmt(stmt *ast.ForStmt, value reflect.V
 
 // runForMapStmt executes a for statement over a map.
 func (runInfo *runInfoStruct) runForMapStmt(stmt *ast.ForStmt, value reflect.Value) {
-	keys := value.MapKeys()
+	// the entries as they are when the loop starts; the values are only needed for keys that
+	// cannot be looked up again (NaN): such an entry cannot be deleted either
+	keys := make([]reflect.Value, 0, value.Len())
+	values := make([]reflect.Value, 0, value.Len())
+	for iter := value.MapRange(); iter.Next(); {
+		keys = append(keys, iter.Key())
+		values = append(values, iter.Value())
+	}
 	for i := 0; i < len(keys); i++ {
 		select {
 		case <-runInfo.ctx.Done():
@@ -556,8 +563,11 @@ func (runInfo *runInfoStruct) runForMapStmt(stmt *ast.ForStmt, value reflect.Val
 
 		mapValue := value.MapIndex(keys[i])
 		if !mapValue.IsValid() {
-			// the entry was deleted while iterating, it is not visited
-			continue
+			if key := keys[i].Interface(); key == key {
+				// the entry was deleted while iterating, it is not visited
+				continue
+			}
+			mapValue = values[i]
 		}
 
 		runInfo.env.DefineValue(stmt.Vars[0], keys[i])
